@@ -198,6 +198,11 @@ pub struct HistSpec {
     /// hand-picked shape (not part of an enumerated family): explored first, so
     /// that a wall cap on a slow machine cuts the enumerated tail, not these
     pub fixed: bool,
+    /// explore ONE schedule only: the caller runs whenever it can (the worker
+    /// lags as far as possible, the queue gets as long as the history allows)
+    pub caller_first_only: bool,
+    /// evaluate the crash oracle in the final state only (long histories)
+    pub crash_final_only: bool,
 }
 
 fn svio(spec: &HistSpec, key: &str, what: String, extra: Value) -> Violation {
@@ -213,6 +218,7 @@ fn svio(spec: &HistSpec, key: &str, what: String, extra: Value) -> Violation {
             "max_faults": spec.max_faults,
             "fault_policy": format!("{:?}", spec.fault_policy),
             "lock_window": spec.lock_window,
+            "caller_first_only": spec.caller_first_only,
             "extra": extra,
         }),
     }
@@ -723,7 +729,13 @@ fn run_once(spec: &HistSpec, pl: &Arc<Plan>, chooser: &mut dyn sched::Chooser, f
 pub fn explore_history(spec: &HistSpec, vios: &mut Vec<Violation>, stats: &mut SchedStats, wall_deadline: Instant) -> Result<(), Machinery> {
     let pl = Arc::new(plan(&spec.hist, &spec.cfg));
     let mut ctx = HistCtx { seen_states: HashSet::new(), images: HashMap::new(), nested_done: HashSet::new() };
-    let mut dfs = Dfs::new(spec.max_faults, spec.fault_policy);
+    let mut dfs = if spec.caller_first_only {
+        // forced mode with an empty schedule: always the first enabled transition,
+        // i.e. the lowest thread id — the caller whenever it is enabled
+        Dfs::replaying(vec![], 0, FaultPolicy::None)
+    } else {
+        Dfs::new(spec.max_faults, spec.fault_policy)
+    };
     let faults_possible = spec.max_faults > 0 && spec.fault_policy != FaultPolicy::None;
     stats.histories += 1;
     sched::set_lock_window(spec.lock_window);
@@ -733,6 +745,13 @@ pub fn explore_history(spec: &HistSpec, vios: &mut Vec<Violation>, stats: &mut S
         let (res, co, acks, dir) = run_once(spec, &pl, &mut dfs, faults_possible);
         if let Some(h) = &res.hung {
             return Err(Machinery(format!("a managed thread did not park within the timeout: {} | history [{}]", h, shist_short(&spec.hist))));
+        }
+        if !res.unmanaged_fs.is_empty() {
+            return Err(Machinery(format!(
+                "a thread the scheduler does not control (started by the code under test) changed the scratch directory: {:?}; its interleavings cannot be explored | history [{}]",
+                res.unmanaged_fs,
+                shist_short(&spec.hist)
+            )));
         }
         if let Some(d) = &dfs.divergence {
             if spec.lock_window {
@@ -883,7 +902,7 @@ fn analyze(
         match ev {
             Event::Step { .. } => {
                 stats.scheduler_states += 1;
-                if spec.crash {
+                if spec.crash && !spec.crash_final_only {
                     let pend = res.pendings.get(step_no);
                     crash_oracle(spec, pl, &fs, acked_a, pend, ctx, vios, stats, dfs, step_no);
                 }
@@ -1612,6 +1631,7 @@ pub enum Sym {
     Abig,
     Ahuge,
     Agiant,
+    Amega,
     T,
     Pfirst,
     Plast,
@@ -1642,6 +1662,7 @@ pub fn instantiate(sym: Sym, m: &RefLog, outstanding_flushes: usize, waited: usi
         Sym::Abig => w(Op::Append(vec![((term, next), payload((term, next), 2))])),
         Sym::Ahuge => w(Op::Append(vec![((term, next), payload((term, next), 3))])),
         Sym::Agiant => w(Op::Append(vec![((term, next), payload((term, next), 4))])),
+        Sym::Amega => w(Op::Append(vec![((term, next), payload((term, next), 5))])),
         Sym::T => {
             let l = last?;
             if m.entries.contains_key(&l.1) {
@@ -1784,6 +1805,8 @@ pub fn replay(prop: &str, r: &Value) -> i32 {
         lock_window: r["lock_window"].as_bool().unwrap_or(false),
         nested: false,
         fixed: false,
+        caller_first_only: r["caller_first_only"].as_bool().unwrap_or(false),
+        crash_final_only: false,
     };
     let schedule: Vec<(usize, String)> = r["extra"]["schedule"]
         .as_array()
